@@ -25,18 +25,59 @@ ASSUMPTIONS = ["start_pos is legal: in range and no presented element of the req
                "prune callbacks return True/False (the property does not claim the docstring's None=stop)"]
 
 
+TRAVERSALS = ["iterOccupancy", "iterRange", "iterActive", "iter", "iterShape", "iterActiveShape", "iterRangeShape",
+              "iterShapeRef", "iterActiveShapeRef", "iterRangeShapeRef"]
+
+
+def traversal(S, name, r, sp, U):
+    """(iterator, model list of (coord, stored index | None), coordinates a reference form visits | None)"""
+    f, (a0, a1) = S.fiber, S.active
+    kw = {} if sp is None else {"start_pos": sp}
+    if name == "iterOccupancy":
+        return f.iterOccupancy(**kw), S.occ(), None
+    if name == "iterRange":
+        return f.iterRange(r["s"], r["e"], **kw), S.occ(r["s"], r["e"]), None
+    if name == "iterActive":
+        return f.iterActive(**kw), S.occ(a0, a1), None
+    if name == "iter":
+        return iter(f), (S.dense(a0, a1) if U else S.occ()), None
+    if name == "iterShape":
+        return f.iterShape(), S.dense(0, S.shape), None
+    if name == "iterActiveShape":
+        return f.iterActiveShape(), S.dense(a0, a1), None
+    if name == "iterRangeShape":
+        return f.iterRangeShape(r["s"], r["e"], r["step"]), S.dense(r["s"], r["e"], r["step"]), None
+    if name == "iterShapeRef":
+        w = S.dense(0, S.shape)
+    elif name == "iterActiveShapeRef":
+        w = S.dense(a0, a1)
+    else:
+        w = S.dense(r["s"], r["e"], r["step"])
+    it = {"iterShapeRef": f.iterShapeRef, "iterActiveShapeRef": f.iterActiveShapeRef,
+          "iterRangeShapeRef": lambda: f.iterRangeShapeRef(r["s"], r["e"], r["step"])}[name]()
+    return it, w, [c for c, _ in w]
+
+
 @st.composite
 def request(draw, shape):
     op = draw(st.sampled_from(["lazy_range", "iterOccupancy", "iterRange", "iterRange", "iterActive", "iterShape",
                                "iterActiveShape", "iterRangeShape", "iterShapeRef", "iterActiveShapeRef",
                                "iterRangeShapeRef", "iter", "coiter", "coiter", "project", "project", "project",
-                               "prune", "lazy", "lazy"]))
+                               "prune", "lazy", "lazy", "interleaved", "interleaved"]))
     r = {"op": op, "sp": draw(st.one_of(st.none(), st.integers(0, 20)))}
+    if op == "interleaved":
+        # two traversals of the SAME fiber, one inside the body of the other (a self-join, a convolution)
+        r["outer"] = draw(st.sampled_from(TRAVERSALS))
+        r["inner"] = draw(st.sampled_from(TRAVERSALS))
+        r["isp"] = draw(st.one_of(st.none(), st.integers(0, 20)))
+        r["step"] = draw(st.sampled_from([1, 1, 2, 3]))
     lo = draw(st.integers(-1, shape + 1))
     hi = draw(st.integers(lo, shape + 2))
     if op == "iterRange":
         r["s"] = draw(st.one_of(st.none(), st.just(lo)))
         r["e"] = draw(st.one_of(st.none(), st.just(hi)))
+    if op == "interleaved":
+        r["s"], r["e"] = max(lo, 0), hi
     if op in ("iterRangeShape", "iterRangeShapeRef"):
         r["s"], r["e"] = max(lo, 0), hi
         r["step"] = draw(st.sampled_from([1, 1, 2, 3, -1, -2]))
@@ -262,6 +303,41 @@ def check(case, rec):
                     elif Payload.get(p) != default:
                         raise Violation("default-value", f"{op}: created payload at {c} is {p!r}")
             rec.cls("ref-form")
+        elif op == "interleaved":
+            outer, inner = r["outer"], r["inner"]
+            oref, iref = outer.endswith("Ref"), inner.endswith("Ref")
+            if iref and not oref:
+                # an inner walk that inserts while the outer one walks the stored elements is a mutation during
+                # iteration: only a reference-creating outer walk (which looks every coordinate up) is asked to bear it
+                inner, iref = inner[:-3], False
+            # (shortcuts: any legal one while nothing is inserted; position 0 -- always legal -- otherwise)
+            rng_s = {"iterRange": r["s"], "iterActive": a0}
+            osp = S.legal_sp(r["sp"], rng_s.get(outer)) if not oref and outer in ("iterOccupancy", "iterRange", "iterActive") else None
+            isp = None
+            if inner in ("iterOccupancy", "iterRange", "iterActive") and r["isp"] is not None and S.coords:
+                isp = 0 if oref else S.legal_sp(r["isp"], rng_s.get(inner))
+            it, want, visited = traversal(S, outer, r, osp, U)
+            got, inner_runs, ivisited = [], 0, []
+            for cp in it:
+                got.append((cp.coord, cp.payload))
+                if inner_runs < 4:
+                    iit, iwant, iv = traversal(S, inner, r, isp, U)
+                    S.compare(pyl(iit), iwant, f"{inner}(sp={isp}) inside the body of {outer}(sp={osp}), run {inner_runs}")
+                    ivisited = iv or []
+                    inner_runs += 1
+            S.compare(got, want, f"{outer}(sp={osp}) with {inner}(sp={isp}) run in its body")
+            if oref or iref:
+                S.grown_by((visited or []) + (ivisited if inner_runs else []), f"{outer} with {inner} in its body")
+                for c, p in got:
+                    if p is not f.payloads[f.coords.index(c)]:
+                        raise Violation("ref-identity", f"{outer} with {inner} in its body: reference at {c} is not the "
+                                        f"stored payload")
+            else:
+                S.unchanged(f"{outer} with {inner} in its body")
+            rec.cls("interleaved-ref", oref or iref)
+            rec.cls("interleaved-shortcut", osp is not None or isp is not None)
+            if inner_runs and (osp is not None or isp is not None or oref):
+                interesting = True
         elif op == "iter":
             got = pyl(f)
             want = S.dense(a0, a1) if U else S.occ()
